@@ -20,65 +20,82 @@ Definition hh_th (h : hhook) := let '(_, _, _, t, _, _) := h in t.
 Definition hh_lik (h : hhook) := let '(_, _, _, _, l, _) := h in l.
 Definition hh_eps (h : hhook) := let '(_, _, _, _, _, e) := h in e.
 
-Definition hstate := (list Q * list Q * list (list Q))%type.
+Definition hstate (A : Type) := (list A * list A * list (list A))%type.
 
-Definition hlin_state (tab : exptab) (h : hhook) : option hstate :=
+(* Go's state on the linear scale through the certified exp table: exact rationals / the table's floats *)
+Definition hlin_state (tab : exptab) (h : hhook) : option (hstate Q) :=
   match all_some (map (wq tab) (hh_pi h)), all_some (map (wq tab) (hh_tr h)),
         all_some (map (fun p => all_some (map (wq tab) p)) (hh_th h)) with
   | Some p, Some t, Some th => Some (p, t, th)
   | _, _, _ => None
   end.
+Definition hlin_state_f (tab : exptab) (h : hhook) : hstate float :=
+  (map (tabexp tab) (hh_pi h), map (tabexp tab) (hh_tr h), map (map (tabexp tab)) (hh_th h)).
 
-Definition hmm_step_q (M C J : nat) (smap : list nat) (seqs : list (list nat)) (st : hstate)
-  : hstate * Q (* likelihood of all sequences, linear scale *) :=
+(* one step of the model ModelHmm.v, carrier-generic: run with the 100-bit rounded rationals NumQr
+   (exact up to 2^-100 per operation) or with binary64 NumF (all operations are + * / on non-negative
+   numbers, so the relative error of every computed quantity is below (number of operations) * 2^-53
+   << the comparison tolerance 1e-9; this standard bound is not machine-checked, which is why a part
+   of the cases of every run is decided with NumQr) *)
+Section StepG.
+Context {A : Type} (N : Num A).
+Definition hmm_step_g (M C J : nat) (smap : list nat) (seqs : list (list nat)) (st : hstate A)
+  : hstate A * A (* likelihood of all sequences, linear scale *) :=
   let '(pis, trs, ths) := st in
+  let z := zero N in
   let nseq := length seqs in
   let len := fun s => length (nth s seqs []) in
-  let pi := nthQ pis in
-  let tr := fun i j => nthQ trs (i * M + j) in
+  let pi := fun i => nth i pis z in
+  let tr := fun i j => nth (i * M + j) trs z in
   let sm := fun j => nth j smap O in
   let obs := fun s k => nth k (nth s seqs []) O in
-  let e := fun s j k => nthQ (nth (sm j) ths []) (obs s k) in
-  let npi := map (bw_pi_new NumQr M nseq len pi tr e) (seq 0 M) in
-  let ntr := flat_map (fun i => map (bw_tr_new NumQr M nseq len pi tr e i) (seq 0 M)) (seq 0 M) in
+  let e := fun s j k => nth (obs s k) (nth (sm j) ths []) z in
+  let npi := map (bw_pi_new N M nseq len pi tr e) (seq 0 M) in
+  let ntr := flat_map (fun i => map (bw_tr_new N M nseq len pi tr e i) (seq 0 M)) (seq 0 M) in
   (* Emissions(): the categorical estimator of class c on all positions with gamma[c] as weights *)
   let pos := flat_map (fun s => map (fun k => (s, k)) (seq 0 (len s))) (seq 0 nseq) in
   let nth_ := map (fun c =>
-                let w := map (fun sk => (bw_eweight NumQr M len pi tr e sm c (fst sk) (snd sk), obs (fst sk) (snd sk))) pos in
-                match cf_categorical NumQr J w with Some th => th | None => repeat 0%Q J end) (seq 0 C) in
-  let lik := fold_left (fun a s => mul NumQr a (bw_lik NumQr M len pi tr e s)) (seq 0 nseq) 1%Q in
+                let w := map (fun sk => (bw_eweight N M len pi tr e sm c (fst sk) (snd sk), obs (fst sk) (snd sk))) pos in
+                match cf_categorical N J w with Some th => th | None => repeat z J end) (seq 0 C) in
+  let lik := fold_left (fun a s => mul N a (bw_lik N M len pi tr e s)) (seq 0 nseq) (one N) in
   ((npi, ntr, nth_), lik).
+End StepG.
 
 Definition qclose (x y : Q) : bool := closeQ tolQ x y || closeQ_abs x y.
+Definition fqclose (x : Q) (y : float) : bool := match F2Q y with Some q => qclose x q | None => false end.
 
-Definition hstate_close (a b : hstate) : bool :=
+Definition hstate_close {B} (cl : Q -> B -> bool) (a : hstate Q) (b : hstate B) : bool :=
   let '(p1, t1, th1) := a in let '(p2, t2, th2) := b in
-  list_eqb qclose p1 p2 && list_eqb qclose t1 t2 && list_eqb (list_eqb qclose) th1 th2.
+  list_eqb2 cl p1 p2 && list_eqb2 cl t1 t2 && list_eqb2 (list_eqb2 cl) th1 th2.
 
-Definition hcheck_transition (tab : exptab) (M C J : nat) smap seqs (h0 h1 : hhook) : bool :=
+Definition hcheck_transition (exact : bool) (tab : exptab) (M C J : nat) smap seqs (h0 h1 : hhook) : bool :=
   match hlin_state tab h0, hlin_state tab h1, wq tab (hh_lik h1) with
   | Some st0, Some st1, Some lik1 =>
-      let '(st, lik) := hmm_step_q M C J smap seqs st0 in
-      hstate_close st1 st && closeQ tolQ lik1 lik
+      if exact then
+        let '(st, lik) := hmm_step_g NumQr M C J smap seqs st0 in
+        hstate_close qclose st1 st && closeQ tolQ lik1 lik
+      else
+        let '(st, lik) := hmm_step_g NumF M C J smap seqs (hlin_state_f tab h0) in
+        hstate_close fqclose st1 st && match F2Q lik with Some l => closeQ tolQ lik1 l | None => false end
   | _, _, _ => false
   end.
 
-Fixpoint hcheck_transitions tab M C J smap seqs (hs : list hhook) : bool :=
+Fixpoint hcheck_transitions exact tab M C J smap seqs (hs : list hhook) : bool :=
   match hs with
-  | h0 :: ((h1 :: _) as r) => hcheck_transition tab M C J smap seqs h0 h1 && hcheck_transitions tab M C J smap seqs r
+  | h0 :: ((h1 :: _) as r) => hcheck_transition exact tab M C J smap seqs h0 h1 && hcheck_transitions exact tab M C J smap seqs r
   | _ => true
   end.
 
 Definition hook_of (h : hhook) : hook := (hh_iter h, [], [], hh_lik h, hh_eps h).
 
 Inductive case2 :=
-| C2Hmm (M C J : nat) (smap : list nat) (seqs : list (list nat)) (eps : float) (max_steps : option nat)
+| C2Hmm (exact : bool) (M C J : nat) (smap : list nat) (seqs : list (list nat)) (eps : float) (max_steps : option nat)
         (trace : list hhook).
 
 Definition check2 (tab : exptab) (c : case2) : bool :=
   match c with
-  | C2Hmm M C J smap seqs eps ms tr =>
-      hcheck_transitions tab M C J smap seqs tr && check_driver eps ms (map hook_of tr)
+  | C2Hmm exact M C J smap seqs eps ms tr =>
+      hcheck_transitions exact tab M C J smap seqs tr && check_driver eps ms (map hook_of tr)
       && check_monotone (map hh_lik (tl tr))
   end.
 
